@@ -183,6 +183,17 @@ pub fn run(thorough: bool) -> Report {
             seqs.push(decode_seq(i, 6, len));
         }
     }
+    // second family: rejected calls and re-seeding of a used interpreter mixed in (items 6..=10)
+    for len in 1..=4 {
+        for i in 0..pow(11, len) {
+            let q = decode_seq(i, 11, len);
+            if q.iter().any(|k| *k >= 6) {
+                seqs.push(q);
+            }
+        }
+    }
+    let malformed = ["PRINT RND(1", "X = RND(1, 2)", "PRINT RND(2 X)"];
+    let reseeds: [u64; 2] = [0, 12345];
     let nseq = seqs.len() as u64 * disp_seeds.len() as u64;
     let dviol: Vec<Violation> = seqs
         .par_iter()
@@ -202,6 +213,38 @@ pub fn run(thorough: bool) -> Report {
                 let mut model = seed % LCG_M;
                 let mut stepped = false;
                 for &a in seq {
+                    if a >= 9 {
+                        // the host seeds a used interpreter: the sequence restarts from that seed
+                        let sd = reseeds[a - 9];
+                        hist.push(Ev::Randomize(sd));
+                        let _ = s.apply(&Ev::Randomize(sd));
+                        model = sd % LCG_M;
+                        stepped = false;
+                        continue;
+                    }
+                    if a >= 6 {
+                        // a call the parser rejects is not a call: the generator must not move
+                        let line = malformed[a - 6].to_string();
+                        hist.push(Ev::Line(line.clone()));
+                        let before = guarded(|| s.it.verif_snapshot().rng_state).unwrap_or(0);
+                        let r = s.apply(&Ev::Line(line.clone()));
+                        let after = guarded(|| s.it.verif_snapshot().rng_state).unwrap_or(0);
+                        let p = match r {
+                            CallResult::Panic(p) => Some(format!("panic {}", short_panic(&p))),
+                            CallResult::Ok => Some("malformed call was accepted".to_string()),
+                            CallResult::Err(_, _) if after != before => Some("a rejected call advanced the generator".to_string()),
+                            _ => None,
+                        };
+                        if let Some(p) = p {
+                            out.push(Violation {
+                                signature: format!("dispatch rejected call {}: {}", line, p),
+                                detail: format!("seed {}: {:?}: {}", seed, line, p),
+                                case: case_history(&hist, false, false),
+                            });
+                            break;
+                        }
+                        continue;
+                    }
                     let line = format!("PRINT RND({})", args[a]);
                     hist.push(Ev::Line(line.clone()));
                     s.recs.clear();
@@ -266,7 +309,7 @@ pub fn run(thorough: bool) -> Report {
                                 args[a],
                                 p.split(|c: char| c.is_ascii_digit()).next().unwrap_or("")
                             ),
-                            detail: format!("seed {} calls {:?}: {}", seed, seq.iter().map(|&i| args[i]).collect::<Vec<_>>(), p),
+                            detail: format!("seed {} history {:?}: {}", seed, hist, p),
                             case: case_history(&hist, false, false),
                         });
                         break;
